@@ -530,9 +530,10 @@ def run_case(c, R):
             outs, customs = [out.real, out.imag], [None, None]
         if cx:
             R.check(np.asarray(out).shape == x.shape, 'output-shape', got=list(np.asarray(out).shape), want=list(x.shape), **info)
-            R.check(np.array_equal(x.view(np.float64), x0.view(np.float64)), 'input-modified', **info)
-        else:
-            R.check(np.array_equal(x, parts[0]), 'input-modified', **info)
+        # the oracle works on its own copies (parts); an input modified in place is recorded as evidence only -- the
+        # property does not forbid it
+        if not (np.array_equal(x, x0) if cx else np.array_equal(x, parts[0])):
+            R.count('input_modified_in_place')
         ok = True
         plan = []
         for k in range(nparts):
